@@ -30,6 +30,7 @@ func Families(quick bool) []*prog.Case {
 	cases = append(cases, famLoops(quick)...)
 	cases = append(cases, famSeq(quick)...)
 	cases = append(cases, famImplicit(quick, types)...)
+	cases = append(cases, famSeqW(quick)...)
 	return cases
 }
 
